@@ -379,9 +379,14 @@ def c20():
         "props_file": "Props/C20.v",
         "theorems": ["C20_reader_safe", "C20_monotone", "C20_final_value", "C20_inplace_refuted",
                      "C20_nonvacuous", "C20_two_readers_safe", "C20_two_readers_monotone", "C20_reader_exists_then_open_safe", "C20_reader_exists_then_open_refines",
-                     "C20_published_never_disappears", "C20_source_tie_update_cond", "C20_run_spares_monitor_files"],
-        "model_files": ["Model/Monitor.v", "Gen/GMon.v", "Proofs/GenTieMon.v", "Gen/GMrDel.v", "Proofs/MonitorRun.v"],
-        "suites": [suite_monitor.suite_monitor, suite_monitor.suite_monitor_interleave, suite_monitor.suite_monitor_vs_run],
+                     "C20_published_never_disappears", "C20_source_tie_update_cond", "C20_run_spares_monitor_files",
+                     "C20_source_tie_update_ops", "C20_source_tie_names", "C20_run_spares_source_names",
+                     "C20_many_readers_safe", "C20_many_readers_monotone", "C20_many_readers_never_disappears",
+                     "C20_execN_one_reader"],
+        "model_files": ["Model/Monitor.v", "Gen/GMon.v", "Proofs/GenTieMon.v", "Gen/GMrDel.v", "Proofs/MonitorRun.v",
+                        "Gen/GMonOps.v", "Proofs/GenTieMonOps.v"],
+        "suites": [suite_monitor.suite_monitor, suite_monitor.suite_monitor_interleave, suite_monitor.suite_monitor_vs_run,
+                   suite_monitor.suite_monitor_global],
         "search": suite_monitor.search_c20,
         "replay": suite_monitor.replay_c20,
         "level": "proof",
